@@ -93,7 +93,8 @@ struct Flags {
 	int ops = 0, chain_mut = 0, head_rm = 0, nonhead_rm = 0, rehash = 0, eq_equal = 0, eq_equal_difforder = 0, eq_unequal = 0,
 	    eq_unequal_samelen = 0, eq_values_only = 0, merges = 0, merge_overlap = 0, clones = 0, clone_then_mut = 0, maxlen = 0,
 	    algebra = 0, tablesizes = 0, removed_present = 0, overwrites = 0, front_insert = 0, mid_insert = 0, convs = 0,
-	    conv_reordered = 0, conv_merged = 0, eq_default_moved = 0;
+	    conv_reordered = 0, conv_merged = 0, eq_default_moved = 0, setref = 0, setref_new = 0, setref_before = 0, setref_after = 0,
+	    setref_full = 0;
 	unsigned small_found = 0, small_nf = 0;
 	bool cloned[3] = {false, false, false};
 };
@@ -700,6 +701,53 @@ struct MapRun {
 			check(s, "clonemove");
 			do_eq(s, t, "clonemove");
 			return;
+		}
+		else if (n == "setref") { // insert / overwrite with a value passed BY REFERENCE to an entry of the same container: set(k1, m[k2]), ...
+			MK k2;
+			if (!nthkey(s, o.i(2), k2))
+				return;
+			probe(mk);
+			F.setref++;
+			if (!m.count(mk)) {
+				F.setref_new++;
+				if (mk < k2)
+					F.setref_before++;
+				else
+					F.setref_after++;
+				if constexpr (ORD)
+					if (c.kv().length() == c.kv().cap())
+						F.setref_full++;
+			}
+			pre_mut(s, mk, false);
+			MV want = m[k2]; // the model reads the value before the insertion, as a by-value call would
+			int b = tablen(s);
+			K ak1 = Conv<K>::to(mk), ak2 = Conv<K>::to(k2);
+			long long form = o.i(3) < 0 ? -o.i(3) : o.i(3);
+			// only forms in which the library function itself receives the reference (set(k, const T&), operator()(k, const T&));
+			// m[k1] = m[k2] with a new k1 is the caller's aliasing problem and is not generated
+			switch (form % 5) {
+			case 0:
+				c.set(ak1, c[ak2]); // k2 is present: this operator[] does not insert
+				break;
+			case 1:
+				c.set(ak1, *c.find(ak2));
+				break;
+			case 2: {
+				V def = V();
+				c.set(ak1, c.get(ak2, def));
+				break;
+			}
+			case 3:
+				c.set(ak1, ((const C&)c)[ak2]);
+				break;
+			default:
+				if constexpr (ORD)
+					c(ak1, *((const C&)c).find(ak2));
+				else
+					c.set(ak1, *c.find(ak2));
+			}
+			post_insert(s, b);
+			m[mk] = want;
 		}
 		else if (n == "conv") { // converting constructors from this map (Map<int,int> only)
 			if constexpr (ORD && std::is_same<K, int>::value && std::is_same<V, int>::value) {
@@ -1339,9 +1387,9 @@ struct SetRun {
 
 // ---------------------------------------------------------------------------------------------
 
-static const char* KINDS[] = {"map_ii", "dic_s", "hmap_ii", "hdic_i", "set_i", "set_s"};
+static const char* KINDS[] = {"map_ii", "dic_s", "map_is", "hmap_ii", "hdic_i", "set_i", "set_s"};
 
-static bool is_hash(const std::string& part) { return part != "map_ii" && part != "dic_s"; }
+static bool is_hash(const std::string& part) { return part != "map_ii" && part != "dic_s" && part != "map_is"; }
 
 static void dispatch(const std::string& part, const vf::Case& c, Flags& F)
 {
@@ -1351,6 +1399,10 @@ static void dispatch(const std::string& part, const vf::Case& c, Flags& F)
 	}
 	else if (part == "dic_s") {
 		MapRun<Dic<String>, String, String, true> r(F);
+		r.run(c);
+	}
+	else if (part == "map_is") { // class-type values behind int keys
+		MapRun<Map<int, String>, int, String, true> r(F);
 		r.run(c);
 	}
 	else if (part == "hmap_ii") {
@@ -1403,6 +1455,14 @@ static void record(const std::string& part, const vf::Case& c, const Flags& F)
 	cl("eq_unequal_same_length", F.eq_unequal_samelen > 0);
 	if (part[0] != 's')
 		cl("eq_unequal_one_default_valued_key_moved", F.eq_default_moved > 0);
+	if (part[0] != 's') {
+		cl("set_value_ref_to_own_entry", F.setref > 0);
+		cl("set_value_ref.new_key", F.setref_new > 0);
+		cl("set_value_ref.new_key_before_aliased", F.setref_before > 0);
+		cl("set_value_ref.new_key_after_aliased", F.setref_after > 0);
+		if (!is_hash(part))
+			cl("set_value_ref.new_key_at_length==capacity", F.setref_full > 0);
+	}
 	if (part == "map_ii") {
 		cl("conv", F.convs > 0);
 		cl("conv_key_order_changed", F.conv_reordered > 0);
@@ -1651,9 +1711,17 @@ rc::Gen<vf::Op> opgen(Cfg g)
 			setval();
 		}
 		else if (w < 24) {
-			o.name = "idx";
-			setkey();
-			setval();
+			if (*vf::irange<int>(0, g.strval ? 1 : 3) == 0) {
+				o.name = "setref";
+				setkey();
+				o.a[2] = *vf::irange<int>(0, 400);
+				o.a[3] = *vf::irange<int>(0, 4);
+			}
+			else {
+				o.name = "idx";
+				setkey();
+				setval();
+			}
 		}
 		else if (w < 27) {
 			o.name = "idxr";
@@ -1763,7 +1831,7 @@ Cfg cfg_of(const std::string& part, bool thorough)
 	g.ord = !is_hash(part);
 	g.set = part[0] == 's';
 	g.strkey = part == "dic_s" || part == "hdic_i" || part == "set_s";
-	g.strval = part == "dic_s";
+	g.strval = part == "dic_s" || part == "map_is";
 	return g;
 }
 
@@ -1795,16 +1863,46 @@ void enumerate_small(const vf::Args& a)
 	vf::stats().part("ordered.sizes0-4.every_probe_position.every_lookup_op", n, true);
 }
 
+// set(k1, <reference to the value of the j-th entry of the same map>) for every map size 1..13 (capacities 3, 6, 12 are crossed at
+// sizes 3, 6, 12), aliased entry first / middle / last, new key below all / just below / just above the aliased key / above all,
+// an existing key (overwrite), and each of the five call forms; Dic<String> and Map<int,String> (class-type values)
+void enumerate_setref(const vf::Args& a)
+{
+	uint64_t n = 0, idx = 0;
+	for (int kind = 0; kind < 2; kind++)
+		for (int size = 1; size <= 13; size++)
+			for (int which = 0; which < 3; which++)
+				for (int pos = 0; pos < 5; pos++)
+					for (int form = 0; form < 5; form++, idx++) {
+						if ((int)(idx % (uint64_t)a.workers) != a.worker)
+							continue;
+						int j = which == 0 ? 0 : which == 1 ? size / 2 : size - 1; // index of the aliased entry; its key is 2*(j+1)
+						int k1 = pos == 0 ? 1 : pos == 1 ? 2 * (j + 1) - 1 : pos == 2 ? 2 * (j + 1) + 1 : pos == 3 ? 2 * size + 1 : 2 * ((j + 1) % size + 1);
+						vf::Case c;
+						for (int i = 0; i < size; i++) {
+							int k = 2 * (i + 1);
+							std::string v = i % 3 == 1 ? "s" + std::to_string(k) : "the value of key " + std::to_string(k) + ", on the heap";
+							c.ops.push_back(vf::Op("set", {0, k, 0, 0}, {std::string(1, char('A' + k)), v}));
+						}
+						c.ops.push_back(vf::Op("setref", {0, k1, j, form}, {std::string(1, char('A' + k1)), ""}));
+						if (!vf::runner().run(kind ? "dic_s" : "map_is", c))
+							return;
+						n++;
+					}
+	vf::stats().part("ordered.set_value_aliasing_own_entry.sizes1-13.every_position.every_form", n, true);
+}
+
 } // namespace
 
 void vf_search(const vf::Args& a)
 {
 	[&]() { enumerate_small(a); }();
+	[&]() { enumerate_setref(a); }();
 	for (const char* kind : KINDS) {
 		std::string part = kind;
 		[&]() {
 			Cfg g = cfg_of(part, !a.quick());
-			long n = a.n(g.ord ? 800 : 1000, g.ord ? 2500 : 3500);
+			long n = part == "map_is" ? a.n(500, 1500) : a.n(g.ord ? 800 : 1000, g.ord ? 2500 : 3500);
 			vf::check_cases(part, n, a.quick() ? 120 : 200, casegen(g));
 		}();
 	}
